@@ -149,6 +149,8 @@ ENUM_VARIANTS = {
     'Result': {'Ok': 0, 'Err': 1},
     'Ordering': {'Less': -1, 'Equal': 0, 'Greater': 1},
     'ControlFlow': {'Continue': 0, 'Break': 1},
+    'EitherOrBoth': {'Both': 0, 'Left': 1, 'Right': 2},
+    'Either': {'Left': 0, 'Right': 1},
 }
 
 
@@ -580,6 +582,15 @@ class Engine:
         raise Unsupported('place %r' % (p,))
 
     def read_place(self, frame, p):
+        if isinstance(p, Field) and p.ty.startswith(('std::ptr::Unique<', 'std::ptr::NonNull<')):
+            # boxes are transparent in this model: the raw pointer inside a Box is a reference to the slot
+            # that holds the boxed value
+            if p.ty.startswith('std::ptr::Unique<'):
+                c, k = self.place_slot(frame, p.p)
+                return Ref(c, k)
+            inner = self.read_place(frame, p.p)
+            if isinstance(inner, Ref):
+                return inner
         c, k = self.place_slot(frame, p)
         return c[k]
 
